@@ -214,6 +214,28 @@ def gen_c07(tier, enum):
 
 C06_SIZES = {}
 
+C02_CORE = [("Ethernet", 22), ("Dot1Q", 12), ("IPv4", 28), ("IPv6", 44), ("TCP", 24), ("UDP", 12), ("ICMPv4", 12), ("ICMPv6", 12), ("GRE", 16), ("ARP", 28)]
+
+
+def gen_c02(tier, enum):
+    out = ["package layers", ""]
+    for T, n in C02_CORE:
+        if tier == "thorough":
+            n += 8
+        out.append(f"func verif_C02_det_{T}()    {{ c02Determinism(LayerType{T}, {n}) }}")
+        out.append(f"func verif_C02_shared_{T}() {{ c02Shared(LayerType{T}, {n}) }}")
+    return [("layers", "c02gen.go", "\n".join(out) + "\n")]
+
+
+def gen_c04(tier, enum):
+    out = ["package layers", ""]
+    for T, n in C02_CORE:
+        if tier == "thorough":
+            n += 8
+        out.append(f"func verif_C04_own_{T}() {{ c04Ownership(LayerType{T}, {n}) }}")
+    return [("layers", "c04gen.go", "\n".join(out) + "\n")]
+
+
 C05_CORE = ["Ethernet", "Dot1Q", "IPv4", "IPv6", "TCP", "UDP", "ICMPv4", "ICMPv6", "GRE", "ARP"]
 
 
@@ -261,6 +283,24 @@ PROPS = {
         "outside": "inputs up to 64 KiB; fmt/reflect internals of String/Dump/LayerGoString",
         "quick": {"timeout": 900, "units": "verif_C01_(core2|pkt_.*)", "params": "verif_C01_core.*:b0=0..14,opt=0..4", "unsupported_ok": True, "maxpaths": 600, "partial_ok_all": True, "timeout": 1200},
         "thorough": {"timeout": 3000, "params": "verif_C01_core.*:b0=0..14,opt=0..4", "unsupported_ok": True, "maxpaths": 20000, "partial_ok_all": True},
+    },
+    "C02": {
+        "pkgs": [MOD + "/layers"],
+        "static": [("layers", "c02.go")],
+        "generate": gen_c02,
+        "bounds": "ten core first-layer types (Ethernet, Dot1Q, IPv4, IPv6, TCP, UDP, ICMPv4, ICMPv6, GRE, ARP), input of symbolic length up to header+8 bytes (quick) / +16 (thorough); determinism: decode, unrelated decode, decode again, with and without NoCopy, write barrier on the caller's buffer and on all package-level state; sharing: two reader goroutines run every accessor including VerifyChecksums on one eager packet whose whole object graph is frozen for writing",
+        "outside": "the Go race detector is used only to confirm a reported store natively; more than two readers; String()/Dump() rendering (fmt/reflect)",
+        "quick": {"timeout": 900, "maxpaths": 400, "partial_ok_all": True, "unsupported_ok": True},
+        "thorough": {"timeout": 3000, "maxpaths": 10000, "partial_ok_all": True, "unsupported_ok": True},
+    },
+    "C04": {
+        "pkgs": [MOD + "/layers"],
+        "static": [("layers", "c02.go")],
+        "generate": gen_c04,
+        "bounds": "ten core first-layer types: default vs NoCopy vs Pool vs Pool+NoCopy decode of the same symbolic bytes (length up to header+8/+16) compared layer by layer, reachability of the caller's buffer from the default packet, mutation of the caller's buffer afterwards; pooled packets: all histories of 3 NewPacket(Pool)/Dispose operations with a nondeterministic sync.Pool (contract model: Get returns any pooled block or a new one); lengths 1499..1501 around the pool block size",
+        "outside": "the real sync.Pool; Dispose racing with decoding on other goroutines",
+        "quick": {"timeout": 900, "maxpaths": 1500, "partial_ok_all": True, "unsupported_ok": True, "params": "verif_C04_pool_sizes:len=1499..1501"},
+        "thorough": {"timeout": 3000, "maxpaths": 20000, "partial_ok_all": True, "unsupported_ok": True, "params": "verif_C04_pool_sizes:len=1498..1502"},
     },
     "C03": {
         "pkgs": [MOD],
